@@ -352,6 +352,13 @@ func (r *intraProxyStreamReceiver) recvReplicationMessages() error {
 					if backoff < time.Second {
 						backoff *= 2
 					}
+					// A receiver that was shut down while waiting (the target shard left this instance)
+					// must not keep polling: it would never exit while the shard stays away, and when the
+					// shard comes back it would push this stale message into the new stream's queue behind
+					// messages that the replacement receiver has already delivered.
+					if shutdown.IsShutdown() {
+						return nil
+					}
 				}
 			}
 			backoff = 10 * time.Millisecond
